@@ -68,12 +68,11 @@ Proof.
   exists ex_cs, ex_commit. vm_compute. eexists. repeat split; reflexivity.
 Qed.
 
-Lemma C12_sdlag_needed_thm : exists cs evs s,
-  accept (init cs true) evs = Some s /\ holds_C12 true cs evs = false /\ holds_C12w true cs evs = false /\
-  only_flag 1 (final_obs cs evs) = true /\ c12_side cs evs = true /\ c12_noforeign cs evs = true.
-Proof.
-  exists ex_cs, ex_sdlag. vm_compute. eexists. repeat split; reflexivity.
-Qed.
+(* the hardened model rejects this history at its 22nd event: a probe result for an instance that was never launched *)
+Lemma ex_sdlag_rejected :
+  accept (init ex_cs true) ex_sdlag = None /\ fst (accept_prefix (init ex_cs true) ex_sdlag 0) = 21%nat /\
+  nth_error ex_sdlag 21 = Some (500, EProbe 12 false true).
+Proof. vm_compute. repeat split; reflexivity. Qed.
 
 (* 4. a good history: the ordered shutdown stops 12, waits for its completion, then stops 11 *)
 Definition ex_good : list (tid * event) := ex_spawn ++ ex_launch2 ++ ex_sd ++
